@@ -244,15 +244,20 @@ def turn_rows(ctx):
     if ctx.thorough:
         rates += [P31 - 1, 80000000, 1000000007, 77]
         accels += [-3, -2, -7, -(1 << 16) - 1, -50353403]
+    pairs = list(itertools.product(rates, accels))
+    # ... and turns that come tens of millions of ticks in (a top rate against an acceleration
+    # of a few counts per tick): there accel * t^2 / 2 is past 2^53, and a quadratic term that
+    # went through a double on its way is out by a few counts
+    pairs += list(itertools.product([1800000011, 1999999999, P31 - 1], [-23, -37, -3, -255]))
     out = []
-    for rate, accel in itertools.product(rates, accels):
+    for rate, accel in pairs:
         for sgn in (1, -1):
             r_s, a_s = sgn * rate, sgn * accel
             turn = _turning_tick(r_s, a_s)
             if turn is None or turn < 2:
                 continue
             deltas = {0}
-            for size in (1, 2, 3, turn // 4, turn // 2 - 1, turn // 2, turn // 2 + 1, turn):
+            for size in (1, 2, 3, 4, 5, turn // 4, turn // 2 - 1, turn // 2, turn // 2 + 1, turn):
                 deltas |= {size, -size}
             for tick in (turn - 1, turn, turn + 1):
                 total = lt_total_closed(r_s, a_s, 0, tick)
@@ -382,7 +387,7 @@ def run(ctx):
 
 
 def replay(case):
-    if case.get("kind") in ("calc_history", "calc_fresh", "calc_neighbour"):
+    if str(case.get("kind")).startswith("calc_"):
         from .. import calcseq             # pylint: disable=import-outside-toplevel
         return calcseq.replay(case)
     if case["kind"] == "cannot_time":
